@@ -19,6 +19,23 @@ VERIF_DIR = report.VERIF_DIR
 ALL_PROPS = ["C%02d" % i for i in range(1, 21)]
 
 
+def cmd_checkall(args):
+    """one line per property: <id> rc=<0|1|2> [first findings];  exit 1 if any property is not 0"""
+    from .model import Program
+    from . import rules  # noqa: F401  (registers the rules)
+    root = args.root or DEFAULT_ROOT
+    prog = Program(root)
+    pids = args.only.split(",") if args.only else sorted(report.RULES)
+    worst = 0
+    for pid in pids:
+        res = report.run_property(pid, root=root, prog=prog)
+        rc = 1 if res["violations"] else (2 if res["errors"] else 0)
+        worst = max(worst, 1 if rc else 0)
+        det = "; ".join(["%s %s" % (d["rule"], d["construct"]) for d in res["violations"][:3]] + [e[:120] for e in res["errors"][:2]])
+        print("%s rc=%d %s" % (pid, rc, det))
+    return worst
+
+
 def cmd_check(args):
     pid = args.property
     tier = args.tier or os.environ.get("VERIF_TIER") or "quick"
@@ -125,6 +142,9 @@ def main(argv=None):
     c.add_argument("--no-selftest", action="store_true")
     c.add_argument("--jobs", type=int, default=16)
     c.add_argument("-v", "--verbose", action="store_true")
+    a = sub.add_parser("checkall", help="all twenty properties on one tree, program loaded once (used by the corpus runners)")
+    a.add_argument("--root", default=None)
+    a.add_argument("--only", default=None, help="comma separated property ids")
     r = sub.add_parser("replay")
     r.add_argument("path")
     r.add_argument("--root", default=None)
@@ -141,6 +161,8 @@ def main(argv=None):
             return cmd_self_check(args)
         if args.cmd == "check":
             return cmd_check(args)
+        if args.cmd == "checkall":
+            return cmd_checkall(args)
         if args.cmd == "replay":
             return cmd_replay(args)
         if args.cmd == "selftest":
